@@ -13,11 +13,13 @@ verus! {
 //@include prelude/glue2.rs
 //@include specs/range_spec.rs
 //@include specs/etag_spec.rs
+//@include prelude/slice.rs
 //@include specs/multipart_spec.rs
 use stub::{SystemTime, fmt_http_date};
 use http::{Method, StatusCode, Response, HeaderMap, HeaderName, HV, RespView};
 use http::header::{self, HeaderValue};
 use ent::*;
+use sl::*;
 use body::{Body, BodyStream};
 broadcast use {fmtw::vec_len_bound, fmtw::vec_ranges_len_bound, hm::lemma_hmap_push, hm::lemma_hmap_empty};
 
@@ -338,11 +340,6 @@ spec fn proj_c06<D, E>(ent: &EntityRef<D, E>, method: &Method, req: Map<HeaderNa
             &&& !hm.dom().contains(HeaderName::CONTENT_RANGE)
             &&& (proceeds(ent, method, req) ==> ranges@ == range::rr_view(effective_range(ent, req), len).1)
         })
-    // HEAD of a multipart response announces the same exact length
-    &&& ((o_status(out) == 206 && method.k == 1 && hm.dom().contains(HeaderName::CONTENT_TYPE) && proceeds(ent, method, req)) ==> {
-            let v = range::rr_view(effective_range(ent, req), len).1;
-            hm.dom().contains(HeaderName::CONTENT_LENGTH) && hm[HeaderName::CONTENT_LENGTH] == HV::Fmt("{}"@, seq![(total_len(v, len, ent_hdrs_for(ent, req), v.len() as int) + 9) as u64])
-        })
 }
 /// C15: HEAD never reads the entity and has an empty body.
 spec fn proj_c15<D, E>(ent: &EntityRef<D, E>, method: &Method, req: Map<HeaderName, HeaderValue>, out: ServeInner<D, E>, calls: Seq<(u64, u64)>) -> bool {
@@ -358,9 +355,19 @@ spec fn conforms<D, E>(ent: &EntityRef<D, E>, method: &Method, req: Map<HeaderNa
     &&& proj_c04(ent, method, req, out, calls) && proj_c03(ent, method, req, out, calls) && proj_c05(ent, method, req, out, calls)
     &&& proj_c14(ent, method, req, out, calls) && proj_c06(ent, method, req, out, calls)
     &&& ((o_status(out) == 200 || o_status(out) == 206) ==> o_hmap(out).dom().contains(HeaderName::CONTENT_LENGTH))
+    &&& multipart_head_length(ent, method, req, out)
+}
+/// HEAD of a multipart response announces the same exact length GET's body has.
+spec fn multipart_head_length<D, E>(ent: &EntityRef<D, E>, method: &Method, req: Map<HeaderName, HeaderValue>, out: ServeInner<D, E>) -> bool {
+    let hm = o_hmap(out);
+    let len = e_len(ent);
+    (o_status(out) == 206 && method.k == 1 && hm.dom().contains(HeaderName::CONTENT_TYPE) && proceeds(ent, method, req)) ==> {
+        let v = range::rr_view(effective_range(ent, req), len).1;
+        hm.dom().contains(HeaderName::CONTENT_LENGTH) && hm[HeaderName::CONTENT_LENGTH] == HV::Fmt("{}"@, seq![(total_len(v, len, ent_hdrs_for(ent, req), v.len() as int) + 9) as u64])
+    }
 }
 
-//@fn src/serving.rs :: fn prepare_multipart props=C01,C06,C13 implicit=C13 rules=R10,R14,R20,R22,R23
+//@fn src/serving.rs :: fn prepare_multipart props=C01,C06,C13 implicit=C13 rules=R10,R14,R20,R22,R23,STD
 #[verifier::loop_isolation(false)]
 fn prepare_multipart(mut res: http::response::Builder, ranges: &[Range<u64>], len: u64, include_entity_headers: Option<http::header::HeaderMap>)
     -> (out: Result<(http::response::Builder, Vec<Vec<u8>>, u64), MultipartLenOverflowError>)
@@ -384,7 +391,7 @@ fn prepare_multipart(mut res: http::response::Builder, ranges: &[Range<u64>], le
 //@ before "Ok((res, part_headers, body_len))": proof { assert(multipart_parts_ok(part_headers@, ranges@, len, eh)); lemma_rest_is_total(part_headers@, ranges@, len, eh, 0); }
 //@end
 
-//@fn src/serving.rs :: fn serve_inner add=calls props=C01,C02,C03,C04,C05,C06,C13,C14,C15 implicit=C13 rules=R8,R9,R11,R16,R20,R22,R23,R28,R29
+//@fn src/serving.rs :: fn serve_inner add=calls props=C01,C02,C03,C04,C05,C06,C13,C14,C15 implicit=C13 rules=R8,R9,R11,R16,R20,R22,R23,R28,R29,STD
 #[verifier::loop_isolation(false)]
 fn serve_inner<D, E>(ent: &EntityRef<D, E>, method: &Method, req_hdrs: &HeaderMap, calls: &mut Ghost<Seq<(u64, u64)>>) -> (out: ServeInner<D, E>)
     requires req_hdrs.req_wf(), e_etag(ent) matches Some(e) ==> e.wf(), old(calls)@ == Seq::<(u64, u64)>::empty(),
@@ -403,7 +410,6 @@ fn serve_inner<D, E>(ent: &EntityRef<D, E>, method: &Method, req_hdrs: &HeaderMa
         /*@C15 #head_conforms unless=get_conforms*/ method.k == 1 ==> conforms(ent, method, req_hdrs.m@, out, final(calls)@),
 //@body
 //@ at_start: proof { reveal_strlit("{}"); reveal_strlit("bytes */{}"); reveal_strlit("bytes {}-{}/{}"); }
-//@ before "let (res, part_headers, len) =": proof { assert(eh_of(each_part_hdrs) == (if !req_hdrs.m@.dom().contains(HeaderName::IF_RANGE) { render(e_hdr_entries(ent), e_hdr_entries(ent).len() as int) } else { Seq::<u8>::empty() })); }
 //@ loop 1: invariant k_ <= ranges.len(), /*@C03 #estimate_is_80_per_part_plus_ranges*/ (acc_o matches Some(a) ==> a as int == est_sum(ranges@, k_ as int)) && (acc_o.is_none() ==> est_sum(ranges@, k_ as int) > u64::MAX), decreases ranges.len() - k_,
 //@end
 
@@ -415,7 +421,7 @@ spec fn as_inner<D, E>(resp: Response<Body<D, E>>) -> ServeInner<D, E> {
     }
 }
 
-//@fn src/serving.rs :: fn serve add=calls props=C01,C02,C03,C04,C05,C06,C13,C14,C15 implicit=C13 rules=R28
+//@fn src/serving.rs :: fn serve add=calls props=C01,C02,C03,C04,C05,C06,C13,C14,C15 implicit=C13 rules=R28,STD
 fn serve<D, E>(entity: EntityRef<D, E>, req: &http::Request, calls: &mut Ghost<Seq<(u64, u64)>>) -> (resp: Response<Body<D, E>>)
     requires req.headers.req_wf(), e_etag(&entity) matches Some(e) ==> e.wf(), old(calls)@ == Seq::<(u64, u64)>::empty(),
     ensures
